@@ -2,6 +2,6 @@
 # Records, per property, the obligations discharged on the current (unchanged) tree.
 cd "$(dirname "$0")"
 for p in "$@"; do
-  rm -f baseline/$p.json; extra=""; [ "$p" = C11 ] && extra="-sweep"
+  rm -f baseline/$p.json; extra=""; case "$p" in C11|C15|C17) extra="-sweep";; esac
   ./bin/govc -repo /repo -specs ./specs -out ./out -prop "$p" -update-baseline $extra | tail -1
 done
